@@ -59,5 +59,12 @@ func (v *Validator) IsValidOriginalDocument(payload []byte) error {
 		return errors.New("document must NOT have context")
 	}
 
+	// context does not have to be an array (e.g. "@context": "https://www.w3.org/ns/did/v1")
+	if ctxEntry, ok := didDoc[document.ContextProperty]; ok && ctxEntry != nil {
+		if _, isArray := ctxEntry.([]interface{}); !isArray {
+			return errors.New("document must NOT have context")
+		}
+	}
+
 	return nil
 }
